@@ -909,6 +909,8 @@ impl Property for C20 {
         let fake = crate::run::RunRecord {
             outcomes: vec![],
             dumps: vec![],
+            online_violations: vec![],
+            online_states: 0,
             log: rec_log,
             stats: stats.clone(),
             trace: vec![],
